@@ -43,6 +43,10 @@ type vC35Name struct {
 type vC35PM struct {
 	mu    sync.Mutex
 	names []vC35Name
+
+	// the raced-session phase (zz_verif_c35r_test.go) answers through these
+	raceReader    func(defs.PathAddReaderReq) (*defs.PathAddReaderRes, error)
+	racePublisher func(defs.PathAddPublisherReq) (*defs.PathAddPublisherRes, error)
 }
 
 func (pm *vC35PM) rec(a defs.PathAccessRequest) {
@@ -65,11 +69,17 @@ func (pm *vC35PM) FindPathConf(req defs.PathFindPathConfReq) (*defs.PathFindPath
 }
 
 func (pm *vC35PM) AddReader(req defs.PathAddReaderReq) (*defs.PathAddReaderRes, error) {
+	if pm.raceReader != nil {
+		return pm.raceReader(req)
+	}
 	pm.rec(req.AccessRequest)
 	return nil, errors.New("refused")
 }
 
 func (pm *vC35PM) AddPublisher(req defs.PathAddPublisherReq) (*defs.PathAddPublisherRes, error) {
+	if pm.racePublisher != nil {
+		return pm.racePublisher(req)
+	}
 	pm.rec(req.AccessRequest)
 	return nil, errors.New("refused")
 }
@@ -496,4 +506,12 @@ func TestVerifC35Moq(t *testing.T) {
 			map[string]any{"front": "moq-quic", "func": "processSetupMessage", "PATH": raw, "accepted": ok, "name": name, "panic": panicked},
 			fmt.Sprintf("moq-quic/%s/accepted=%v", class, ok), ok)
 	}
+
+	// ---- raced sessions: concurrent streams, API calls and Close() on real sessions --------------------------------
+	out.w.Flush()
+	nRace := n / 2
+	if nRace > 1500 {
+		nRace = 1500
+	}
+	vC35Race(t, s, pm, r, out, nRace)
 }
